@@ -12,7 +12,7 @@ RULE = ("explicit-state BFS over lifecycle histories of Hmac<D>, Poly1305, legac
         "the frontier is empty within 4 blocks and 2 resets; legacy digests are compared with the one-shot reference in every state"
         " Also: HMAC keys of exactly one block; the letter 'result into a buffer one byte short' (must refuse; afterwards a further result must refuse again or be right, reset revives); Digest::input_str for every legacy digest; component shards: C05's Poly1305 limb-steering / corner-state / crafted inputs; tree shards again on the checked-arithmetic build, graph shards of SHA-256 / BLAKE2 objects on the +avx and native builds."
         " Interference: one history per object type with the programs of every other object type (25 bystander programs: hash contexts, one-shots, MACs, legacy digests, stream ciphers, DRG, AEAD, KDFs, Argon2, X25519, Ed25519) woven between its steps, round-robin and whole-program-after-every-step."
-        " Big calls: one input of 8 / 9 / 16 / 17 / 33 whole blocks (+0 / +5 bytes) on every object type, fresh, after a short input and after reset, also on the vector builds. Many calls: 66000 one-byte / empty inputs on one object of every type, result, reset, reuse.")
+        " Every HMAC digest parameterisation (21) with keys of 5, B-1, B, B+1, 2B+3 bytes through the basic lifecycle. Big calls: one input of 8 / 9 / 16 / 17 / 33 whole blocks (+0 / +5 bytes) on every object type, fresh, after a short input and after reset, also on the vector builds. Many calls: 66000 one-byte / empty inputs on one object of every type, result, reset, reuse.")
 ASSUMPTIONS = ["reference hashes, RFC 2104 HMAC, big-integer Poly1305 as in C01/C05/C08", "nothing is required of an object after a panic unwound through it (the history of that object ends)",
                "a repeated result may either repeat the bytes or panic; any other value is a violation"]
 
@@ -37,7 +37,7 @@ def extra_builds(tier):
 
     def chk(fname, i):
         # checked-arithmetic build: every lifecycle history of the tree shards
-        return fname in ("shard_tree", "shard_input_str", "shard_bigcall")
+        return fname in ("shard_tree", "shard_input_str", "shard_bigcall", "shard_all_hmacs")
     # the force-32bits feature is meant to switch the curve backend only; a cfg(feature) branch elsewhere would change MACs too
     return [("relchk", chk), ("avx", vec), ("native", vec), ("fe32", lambda f, a: f == "shard_tree" or f.endswith("_component") or f == "shard_input_str")]
 
@@ -233,7 +233,7 @@ def _mk(ck):
 def shards(tier):
     from props import c05
     n = len(specs(tier))
-    sh = [("shard_tree", i) for i in range(n)] + [("shard_graph", i) for i in range(n)] + [("shard_input_str", None), ("shard_interference", None), ("shard_bigcall", None)] + [("shard_many_calls", k) for k in range(6)]
+    sh = [("shard_tree", i) for i in range(n)] + [("shard_graph", i) for i in range(n)] + [("shard_input_str", None), ("shard_interference", None), ("shard_bigcall", None), ("shard_all_hmacs", None)] + [("shard_many_calls", k) for k in range(6)]
     # the value a Poly1305 object returns depends on rare accumulator states that no history alphabet reaches: C05's steering,
     # corner and crafted inputs run here as a component (first result of a fresh object)
     sh += [("shard_poly_component", ("shard_limbs", i)) for i in range(c05.NLIMB)] + [("shard_poly_component", ("shard_crafted", None))]
@@ -275,6 +275,29 @@ def shard_many_calls(part, tier):
         cases.append((["%snew s0 %s" % (pre, new), "%sinput_rep s0 %s %d" % (pre, P(5, 0, 1), n), "%sresult s0" % pre, "%sreset s0" % pre,
                        "%sinput_rep s0 h: %d" % (pre, n), "%sinput s0 %s" % (pre, P(5, 9, 3)), "%sinput_rep s0 h: 300" % pre, "%sresult s0" % pre],
                       ["-", "-", obs_of(mac(key0, one * n)), "-", "-", "-", "-", obs_of(mac(key0, tail))], None))
+    ck.run(cases)
+    ck.stats.states += len(cases)
+    return ck.stats
+
+
+def shard_all_hmacs(_, tier):
+    """the quick tier explores the full lifecycle graph for eight HMAC digests; here every one of the 21 digest parameterisations
+    gets the basic lifecycle (input in two pieces, result, repeated result, reset, input, raw result; and reset before any result)
+    with keys of 5, B-1, B, B+1 and 2B+3 bytes, so that what the wrapper reports about itself (block size, output size) is exercised
+    for each of them"""
+    ck = core.Checker(PROPERTY_ID)
+    _mk(ck)
+    cases = []
+    for k in HM_ALL:
+        _, B, D = macs.kind_info(k)
+        for kl in (5, B - 1, B, B + 1, 2 * B + 3):
+            key = pat(6, 0, kl)
+            a, b2 = pat(5, 0, B + 3), pat(5, 700, 7)
+            ma, mb = obs_of(macs.hmac(k, key, a)), obs_of(macs.hmac(k, key, b2))
+            new = "mnew s0 hmac %s %s" % (k, H(key))
+            cases.append(([new, "minput s0 %s" % P(5, 0, 3), "minput s0 %s" % P(5, 3, B), "mresult s0", "mresult s0", "mreset s0", "minput s0 %s" % P(5, 700, 7), "mraw s0"],
+                          ["-", "-", "-", ma, (ma, "PANIC"), "-", "-", mb], None))
+            cases.append(([new, "minput s0 %s" % P(5, 0, 3), "mreset s0", "minput s0 %s" % P(5, 700, 7), "mresult s0"], ["-", "-", "-", "-", mb], None))
     ck.run(cases)
     ck.stats.states += len(cases)
     return ck.stats
